@@ -16,6 +16,7 @@ namespace Pybtex.Props
 open Pybtex Spec
 
 /-! ### examples used by the non-vacuity theorems -/
+namespace C05Ex
 
 /-- `@misc{key, note = {n}}` or `@misc{key, note = {n}, crossref = {x}}` -/
 def mk (key : String) (xref : Option String) : Str × Entry :=
@@ -34,17 +35,11 @@ def readAllOf (file : List (Str × Entry)) : BibData :=
   | some (db, _) => db
   | none => BibData.init none
 
-instance {V : Type} (d : CIDict V) : Decidable (CIDict.Inv d) := by
-  unfold CIDict.Inv Lock; exact inferInstance
-
-instance (d : BibData) : Decidable (DbWF d) :=
-  decidable_of_iff (CIDict.Inv d.entries ∧ (∀ t ∈ CIDict.abs d.entries, t.2.2.key = t.2.1) ∧
-      ∀ t ∈ CIDict.abs d.entries, CIDict.Inv t.2.2.fields ∧ CIDict.Inv t.2.2.persons)
-    ⟨fun h => ⟨h.1, h.2.1, fun t ht => ⟨(h.2.2 t ht).1, (h.2.2 t ht).2⟩⟩,
-     fun h => ⟨h.inv, h.keyEq, fun t ht => ⟨(h.entries t ht).fields, (h.entries t ht).persons⟩⟩⟩
-
 /-- string literals as model strings -/
 def strs (l : List String) : List Str := l.map String.toList
+
+end C05Ex
+open C05Ex
 
 /-- Every database the reader builds is well formed (and reading never raises): the hypothesis
 `DbWF` of the theorems below holds for all of them. -/
@@ -351,6 +346,35 @@ theorem C05_citation_spelling_wins_nonvacuous :
     -- the file says `c1`, `C2`, `P`; the citations say `C1`, `c2`: the citations win, the uncited parent keeps its own
     pythonEngine exFile (strs ["C1", "c2"]) 2 = some ⟨(strs ["C1", "c2", "P"]), []⟩ ∧
     bibtexEngine exFile (strs ["C1", "c2"]) 2 = some ⟨(strs ["C1", "c2", "P"]), []⟩ := by decide
+
+/-- Reading the file restricted to the wanted citations (what both engines do) and then
+resolving gives the same keys and the same dangling-reference reports as reading the whole file
+and selecting afterwards, up to the letter case of keys — PROVIDED the ordering proviso of
+`Spec.proviso` holds: a wildcard is cited, or every parent referenced by (the effective entry
+of) a cited key is itself cited, or absent from the file, or occurs in the file after the
+effective entry of a cited child that references it.  Without the proviso the statement is
+false: `C05_filtered_neg`. -/
+theorem C05_filtered_eq_unfiltered_partial (file : List (Str × Entry)) (hf : ∀ p ∈ file, EntryWF p.2)
+    (citations : List Str) (minCrossrefs : Int) (hprov : proviso (file.map rawToS) citations = true) :
+    ∃ U repU F repF, BibData.readFile none file = some (U, repU) ∧
+      BibData.readFile (some citations) file = some (F, repF) ∧
+      (F.addExtraCitations citations minCrossrefs).1.map lower =
+        (U.addExtraCitations citations minCrossrefs).1.map lower ∧
+      (F.addExtraCitations citations minCrossrefs).2.map Report.lower =
+        (U.addExtraCitations citations minCrossrefs).2.map Report.lower :=
+  filtered_eq_unfiltered file hf citations minCrossrefs hprov
+
+theorem C05_filtered_eq_unfiltered_partial_nonvacuous :
+    -- the parent comes last: proviso holds; filtered and unfiltered agree, the citation's spelling differs from the file's
+    (∀ p ∈ exFile, EntryWF p.2) ∧ proviso (exFile.map rawToS) (strs ["C1", "c2", "d"]) = true ∧
+    (BibData.readFile (some (strs ["C1", "c2", "d"])) exFile).map (fun r => r.1.addExtraCitations (strs ["C1", "c2", "d"]) 2) =
+      some (strs ["C1", "c2", "d", "P"], [Report.badCrossref "d".toList "nowhere".toList]) ∧
+    (BibData.readFile none exFile).map (fun r => r.1.addExtraCitations (strs ["C1", "c2", "d"]) 2) =
+      some (strs ["C1", "c2", "d", "P"], [Report.badCrossref "d".toList "nowhere".toList]) ∧
+    -- a parent that precedes its children is fine when it is cited itself, or when a wildcard is cited
+    proviso ([mk "P" none, mk "c" (some "P")].map rawToS) (strs ["c", "p"]) = true ∧
+    proviso ([mk "P" none, mk "c" (some "P")].map rawToS) (strs ["c", "*"]) = true ∧
+    proviso ([mk "P" none, mk "c" (some "P")].map rawToS) (strs ["c"]) = false := by decide
 
 /-- Finding #16: the full statement "filtered reading = unfiltered reading" is false of the code.
 Witness: the uncited parent `P` precedes its only child `c`; read whole, `c` brings `P` in; read
